@@ -63,8 +63,8 @@ for m in sorted(glob.glob(os.path.join(V, "seeded", "*", "meta.json"))):
         if os.path.exists(xl) and not fhit:
             xh = [v for v in verdict(xl) if "VIOLATION with concrete replay" in v]
             if xh: FIRST[name] += "; caught by another property's check: " + xh[0].split(":")[0]
-    if k.startswith("r3-"):
-        fl = os.path.join(V, "notes", "seedlogs", f"r3first_{name}.log")
+    if k.startswith("r3-") or k.startswith("r4-"):
+        fl = os.path.join(V, "notes", "seedlogs", f"{k[:2]}first_{name}.log")
         if os.path.exists(fl):
             fr = verdict(fl)
             fhit = [v for v in fr if "VIOLATION with concrete replay" in v]
